@@ -532,9 +532,11 @@ class Run:
                     C.__init__(s, *a, **kw)
 
                 def recv_callback(s, msg):
-                    rec("call_recv", s._tid)
-                    at = len(run.log) - 1
+                    if run.mode == "access" and not run.aborting:
+                        run.park()
                     C.recv_callback(s, msg)          # the class's own behaviour (StorageThreadSocket stores the message)
+                    rec("call_recv", s._tid, pre=False)          # recorded when the message has been taken (its effect)
+                    at = len(run.log) - 1
                     run.cb_events.append((at, s._tid, msg))     # when the callback observed the message
                     run.storage[s._tid].append(msg)
 
